@@ -28,9 +28,9 @@ divdiff(const double* x, const double* y, size_t n)
 unsigned int
 factorial(unsigned int n)
 {
-	int acc = n;
+	unsigned int acc = 1;
 	
-	for (unsigned int i = n-1 ; i > 1; i--)
+	for (unsigned int i = n ; i > 1; i--)
 		acc *= i;
 	
 	return (acc);
